@@ -191,10 +191,11 @@ func (m *msg) Imports() (i []File) {
 }
 
 func (m *msg) getDependents(set map[string]Message) {
-	m.populateDependentsCache()
-
-	for fqn, d := range m.dependentsCache {
-		set[fqn] = d
+	for _, dep := range m.dependents {
+		if _, seen := set[dep.FullyQualifiedName()]; !seen {
+			set[dep.FullyQualifiedName()] = dep
+			dep.getDependents(set)
+		}
 	}
 }
 
@@ -203,11 +204,9 @@ func (m *msg) populateDependentsCache() {
 		return
 	}
 
-	m.dependentsCache = map[string]Message{}
-	for _, dep := range m.dependents {
-		m.dependentsCache[dep.FullyQualifiedName()] = dep
-		dep.getDependents(m.dependentsCache)
-	}
+	set := map[string]Message{}
+	m.getDependents(set)
+	m.dependentsCache = set
 }
 
 func (m *msg) Dependents() []Message {
@@ -216,10 +215,11 @@ func (m *msg) Dependents() []Message {
 }
 
 func (m *msg) getDependencies(set map[string]Message) {
-	m.populateDependenciesCache()
-
-	for fqn, d := range m.dependenciesCache {
-		set[fqn] = d
+	for _, dep := range m.dependencies {
+		if _, seen := set[dep.FullyQualifiedName()]; !seen {
+			set[dep.FullyQualifiedName()] = dep
+			dep.getDependencies(set)
+		}
 	}
 }
 
@@ -228,11 +228,9 @@ func (m *msg) populateDependenciesCache() {
 		return
 	}
 
-	m.dependenciesCache = map[string]Message{}
-	for _, dep := range m.dependencies {
-		m.dependenciesCache[dep.FullyQualifiedName()] = dep
-		dep.getDependencies(m.dependenciesCache)
-	}
+	set := map[string]Message{}
+	m.getDependencies(set)
+	m.dependenciesCache = set
 }
 
 func (m *msg) Dependencies() []Message {
